@@ -1133,21 +1133,21 @@ macro_rules! with_claim {
         }
         Err(e) => Err(claim_err(&e)),
       },
-      ClaimSpec::ExpOwned(v) => match ExpirationClaim::try_from(v.clone()) {
+      ClaimSpec::ExpOwned(v) => match ExpirationClaim::try_from(crate::gen::owned(v, v.len() as u8)) {
         Ok($c) => {
           $body;
           Ok(())
         }
         Err(e) => Err(claim_err(&e)),
       },
-      ClaimSpec::NbfOwned(v) => match NotBeforeClaim::try_from(v.clone()) {
+      ClaimSpec::NbfOwned(v) => match NotBeforeClaim::try_from(crate::gen::owned(v, v.len() as u8)) {
         Ok($c) => {
           $body;
           Ok(())
         }
         Err(e) => Err(claim_err(&e)),
       },
-      ClaimSpec::IatOwned(v) => match IssuedAtClaim::try_from(v.clone()) {
+      ClaimSpec::IatOwned(v) => match IssuedAtClaim::try_from(crate::gen::owned(v, v.len() as u8)) {
         Ok($c) => {
           $body;
           Ok(())
@@ -1161,7 +1161,7 @@ macro_rules! with_claim {
         }
         Err(e) => Err(claim_err(&e)),
       },
-      ClaimSpec::CustomOwned(k, v) => match CustomClaim::try_from((k.clone(), v.clone())) {
+      ClaimSpec::CustomOwned(k, v) => match CustomClaim::try_from((crate::gen::owned(k, k.len() as u8), v.clone())) {
         Ok($c) => {
           $body;
           Ok(())
